@@ -153,6 +153,19 @@ def run(ctx):
                                {"op": "create", "at": "A", "h": ["sha1"], "now": "2026-03-01 12:00:03"},
                                dict({"op": "create", "at": "", "h": ["md5"], "now": "2026-03-01 12:00:04", "impl_only": True}, **({"n": True} if nflag else {})),
                                {"op": "verify", "at": "A", "impl_only": True}, {"op": "info", "at": "A", "impl_only": True}]})
+    # histories in states that no command of the current tool produces (the text chain of the first releases with or
+    # without the XML chain, no chain at all, foreign files in the ascmhl folder): whatever the commands answer, the
+    # read-only ones write nothing and flatten writes nothing into the source
+    for hist in ("", "A"):
+        for state in ([{"op": "legacychain", "hist": hist}], [{"op": "legacychain", "hist": hist, "keep_xml": True}], [{"op": "rmchain", "hist": hist}],
+                      [{"op": "write", "path": (hist + "/" if hist else "") + "ascmhl/ascmhl_chain.xml.bak", "data": "<ascmhldirectory/>"}, {"op": "write", "path": (hist + "/" if hist else "") + "ascmhl/notes.txt", "data": "n"}]):
+            ro = []
+            for at in ("", "A"):
+                ro += [{"op": "verify", "at": at}, {"op": "verifydh", "at": at}, {"op": "diff", "at": at}, {"op": "info", "at": at}, {"op": "infosf", "at": at, "file": "x.txt" if at else "A/x.txt"},
+                       {"op": "verify", "at": at, "sf": "x.txt" if at else "t.txt"}, {"op": "flatten", "at": at}]
+            scs.insert(0, {"profile": "c14-odd-state", "impl_only": True, "root": "root", "tree": {"A/x.txt": "x", "A/B/y.txt": "y", "t.txt": "t"},
+                           "ops": [{"op": "create", "at": "A", "h": ["md5"], "now": "2026-03-01 12:00:01"}, {"op": "create", "at": "", "h": ["md5"], "now": "2026-03-01 12:00:02"},
+                                   {"op": "create", "at": "", "h": ["sha1"], "now": "2026-03-01 12:00:03"}] + state + ro})
     return _scn.run_scn(ctx, scs, monitor, assumptions=["reading adopted: the modification time of a directory that RECEIVES a new ascmhl folder changes by the documented effect", "Python-level audit events (open for writing, mkdir, rename, remove, rmdir, utime, chmod, truncate, shutil.*) plus a full snapshot (type, bytes, mode, mtime) before/after every command"])
 
 
